@@ -12,7 +12,7 @@ notes={
  'C03':"non-finite ordinates for all bit patterns; IsSimple/ring validity against definitional oracles on 3-4 symbolic lattice points and on closed 5-segment curves with a symbolic start vertex; Polygon.Validate with one and with two holes (translated triangular hole, all arrangements without proper crossings); MultiPolygon with an empty member at any position",
  'C04':"all 64-bit ordinate patterns on small shapes",
  'C05':"structure through the real lexer/parser with numerals as opaque tokens; numerals themselves as 1..4 (thorough 5) symbolic bytes over {0,1,7,.,e,E,+,-} through text/scanner and the parser, strconv on each remaining concrete spelling",
- 'C06':"six hand-rolled marshalers against an RFC 7946 printer; UnmarshalGeoJSON(MarshalJSON(g)) incl. collections with empty members; the decoder on grammar-built documents (position lengths 0..5); encoding/json itself is a model",
+ 'C06':"six hand-rolled marshalers against an RFC 7946 printer; UnmarshalGeoJSON(MarshalJSON(g)) incl. collections with empty members; the decoder on grammar-built documents (position lengths 0..5); Feature/FeatureCollection round trip and grammar-built Feature documents on concrete JSON values; encoding/json itself is a model",
  'C07':"integer layer for all int64; structural round trip with uninterpreted scaling; exact at precision 0",
  'C08':"arbitrary short buffers and fully symbolic count fields",
  'C09':"Intersects against exact oracles on small symbolic lattice operand classes; on 51 concrete pairs of every type combination Intersects is true exactly when some real location lies in both (existential/universal queries) and agrees with Disjoint, Intersection and Distance==0; Distance of two segments is the least of the four end-point kernel values for every (uninterpreted) kernel; the kernel's numeric value is outside",
